@@ -36,6 +36,7 @@ def _worker(job: Tuple[str, str, Any, Dict[str, Any]]) -> Dict[str, Any]:
             case,
             max_paths=budget.get("max_paths", 200000),
             budget_s=budget.get("budget_s"),
+            sigf=(lambda f: mod.signature({**f, "harness": harness_name})) if hasattr(mod, "signature") else None,
         )
     except BaseException:  # noqa: BLE001 - report, never hang the pool
         res = {
